@@ -53,6 +53,8 @@ def bounds(lean_open):
         return B(1, ps[0] + 3, 1)
     if name == "chain3":
         return B(1, 3)
+    if name == "chain_fb_pr":
+        return B(3, 3)                                  # bufferedFifo_pipeReady_no_livelock (compose_progress_general)
     return None
 
 
@@ -139,9 +141,12 @@ def mk_chain3(depth, layout, tokens=None):
 # ---------------------------------------------------------------------------------------------------------
 # packet.py elements (instances from c16lib's constructors, Lean machines of LitexModel/Packet through our driver)
 
-# Bounds of the cooperative watchdog for the packet elements (cycles to a handshake / to a delivery).  Only the
-# Dispatcher bound is backed by a Lean theorem (dispatcher_progress); the others are declared here, measured to be
-# tight on the unchanged tree, and enforced with the usual slack of 2 cycles.
+# Bounds of the cooperative watchdog for the packet elements (cycles to a handshake / to a delivery).  Backed by
+# Lean theorems of LitexProps/C04.lean: Dispatcher (dispatcher_progress), plain PacketFIFO (packetfifo_progress,
+# packetfifo_no_livelock: pd + 1), aligned Packetizer/Depacketizer (packetizer_no_livelock: 1,
+# depacketizer_no_livelock: W + 1), Arbiter with every master offering (arbiter_progress, arbiter_no_starvation: n).
+# Declared and measured only (open statements in the same file): buffered PacketFIFO (pd + 2), Arbiter with a subset
+# of masters offering (2), unaligned Packetizer/Depacketizer.  All are enforced with the usual slack of 2 cycles.
 PK = dict(k_arb=(2, 2), k_disp=1, k_fifo=(1, None), k_fifo_buf=(1, None), k_pk=(1, 1), k_dpk=(1, None),
           k_pk_u=(1, 1))
 
@@ -345,6 +350,24 @@ def _is_route(job):
     return bool(names & {"MuxInst", "DemuxInst"})
 
 
+def mk_chain_fb_pr(depth, layout, tokens=None):
+    """Pipeline(SyncFIFO(depth, buffered=True), PipeReady): outside the front/back classes (Lean: OfferMeasure.comp)."""
+    from streamlib import StreamInst
+    from litex.gen import LiteXModule
+    from litex.soc.interconnect import stream
+
+    class Chain(LiteXModule):
+        def __init__(self):
+            self.fifo = stream.SyncFIFO(layout, depth, buffered=True)
+            self.pr = stream.PipeReady(layout)
+            self.pipeline = stream.Pipeline(self.fifo, self.pr)
+            self.sink, self.source = self.pipeline.sink, self.pipeline.source
+
+    w = sum(x[1] for x in layout)
+    return StreamInst("Pipeline(SyncFIFO(%d,buffered),PipeReady)/%db" % (depth, w), Chain(), "chain_fb_pr %d" % depth,
+                      capacity=depth + 2, tokens=tokens)
+
+
 def jobs(tier):
     from props import c03
     quick = tier == "quick"
@@ -367,6 +390,10 @@ def jobs(tier):
                  deadline_s=40 if quick else 400))
     J.append(Job("B", lambda: wrap_inst(mk_chain3(8, [("data", 16)]), "B"), cycles=3000 if quick else 30000,
                  runs=1 if quick else 2, watch_every=8 if quick else 16))
+    J.append(Job("A", lambda: wrap_inst(mk_chain_fb_pr(2, [("data", 1)], T2), "A"), max_states=20000 if quick else 400000,
+                 deadline_s=40 if quick else 400))
+    J.append(Job("B", lambda: wrap_inst(mk_chain_fb_pr(5, [("data", 64)]), "B"), cycles=2000 if quick else 20000,
+                 runs=1 if quick else 2, watch_every=20))
     J += corner_jobs(tier)
     J += packet_jobs(tier)
     J.append(Job("A0", lambda: StatusInst(), max_states=10000))
